@@ -266,6 +266,8 @@ class EvalLocalVar:
     def set_undefined(self):
         """Set local symbol to undefined."""
         self.defined = False
+        # drop the reference too, so a deleted function's triggers stop
+        self.value = None
 
     def __getattr__(self, attr):
         """Get attribute of local variable."""
